@@ -185,6 +185,16 @@ def run(ctx):
         for t in [(date, 0), (expires, 0), (date - 1, 0), (expires + 1, 0), (0, 0), (2**40, 0),
                   (expires, 1), (expires, 500000000), (expires, 999999999), (date - 1, 999999999), (date, 1), (expires - 1, 999999999)]:
             items.append((e0, t, fetch))
+    # the zero time.Time (year 1; a caller's unset field) and other far-away instants as verification time, for an exchange whose window
+    # contains the real wall clock (a "zero means now" default would make the first one verify)
+    import time as _time
+    now = int(_time.time())
+    nops = [f'sxg.sign {exs(ex(ver, b"https://example.com/", b"GET", [], 200, [(b"Content-Type", [b"text/html"])], b"", b"valid right now"))} 16 {keys[0]["cert"]} {keys[0]["key"]} {hexs(certurl)} {hexs(vurl)} {now - 1000} {now + 90000}' for ver in VERS]
+    for r in ctx.go(nops):
+        se = parse_ex(r) if r else None
+        if not se: continue
+        for t in [(-62135596800, 0), (-62135596800, 1), (0, 0), (now, 0), (now - 1001, 0), (now + 90001, 0), (2**33, 0), (-1, 0)]:
+            items.append((se, t, {certurl: keys[0]['chain']}))
     if not thorough and len(items) > 9000:
         # keep every in-memory variant; sample the file-level mutants, but never below 3000 of them (the in-memory set grows with the
         # number of keys; a budget that is only "what is left" once silently dropped every file-level mutant)
@@ -197,3 +207,13 @@ def run(ctx):
                 remap[i] = len(out); out.append(it)
         items, reread = out, {remap[i]: f for i, f in reread.items() if i in remap}
     verify_stage(ctx, items, reread)
+
+    # payloads past 16 MiB (nothing in the format limits the payload; a verifier that caps what it reads must refuse, not cut): the
+    # property's own round trip on the real code alone -- the verified payload is the signed payload, byte for byte
+    big = []
+    for ver, n_ in (('b3', 17 * 2**20), ('b1', 16 * 2**20 + 1), ('b2', 16 * 2**20)):
+        e = list(ex(ver, b'https://example.com/big', b'GET', [], 200, [(b'Content-Type', [b'text/html'])], b'', b''))
+        e[7] = f'rep:ab:{n_}'
+        big.append(f'sxg.rt.sign {exs(e)} 16384 {keys[0]["cert"]} {keys[0]["key"]} {hexs(certurl)} {hexs(vurl)} {date} {expires} {keys[0]["chain"]} {date + 10}')
+    for op, r in zip(big, ctx.go(big)):
+        ctx.records.append((' '.join(op.split(' ')[:3]) + ' ... ' + op.split(' ')[8], r or 'crash', 'same'))
